@@ -68,7 +68,7 @@ func c06Cases(tier string, seed int64) []string {
 		ns = 12
 	}
 	for i := 0; i < ns; i++ {
-		for _, kind := range []string{"sentinel", "pillar", "spork", "token", "accelerator"} {
+		for _, kind := range []string{"sentinel", "pillar", "spork", "token", "accelerator", "tick-gap", "tick-gap"} {
 			l = append(l, fmt.Sprintf("scripted:%s:%d", kind, i))
 		}
 	}
@@ -105,6 +105,13 @@ func c06Run(c *fw.C, caseID string) {
 		depthX = 8 + r.Intn(10)
 		prefixLen = 572 + r.Intn(12)
 		stepMax = 1
+	}
+	if script == "tick-gap" {
+		// the abandoned branch misses every remaining slot of the current tick and continues in a later one,
+		// the adopted branch produces inside the tick: statistics of that tick must be recomputed after the switch
+		depthX = 2 + r.Intn(6)
+		prefixLen = 25 + r.Intn(70)
+		stepMax = 4
 	}
 
 	open := func(name string, keys bool) *simnet.Node {
@@ -168,7 +175,38 @@ func c06Run(c *fw.C, caseID string) {
 	// the two branches
 	wB := simnet.NewWorkload(rand.New(rand.NewSource(r.Int63())), B)
 	wB.Sporks = true
-	if script != "" {
+	if script == "tick-gap" {
+		f := A.Frontier()
+		slotInTick := int((f.Timestamp.Unix()-A.Gen.GetGenesisMomentum().Timestamp.Unix())/10) % 30
+		remaining := 29 - slotInTick
+		if remaining < 2 {
+			// move both producers into the next tick first
+			if !produce(A, wA, 3, 0) {
+				return
+			}
+			if err := B.SyncFrom(A, 10); err != nil {
+				c.Violation("sync-failed", err.Error())
+				return
+			}
+			for _, n := range []*simnet.Node{S, K} {
+				_ = n.SyncFrom(A, 10)
+			}
+			forkPoint = A.Height()
+			prefixDump = K.DumpFrontier()
+			f = A.Frontier()
+			slotInTick = int((f.Timestamp.Unix()-A.Gen.GetGenesisMomentum().Timestamp.Unix())/10) % 30
+			remaining = 29 - slotInTick
+		}
+		wA.Step(3)
+		if _, err := A.Produce(remaining + r.Intn(40)); err != nil {
+			c.Violation("producer-cannot-produce", map[string]interface{}{"node": "A", "err": err.Error()})
+			return
+		}
+		if !produce(A, wA, depthX-1, 1) {
+			return
+		}
+		c.SetAdd("scripted_objects_created_in_abandoned_branch", "tick-gap")
+	} else if script != "" {
 		z := int64(g.Zexp)
 		steps := c06Script(script, z)
 		for i := 0; i < depthX; i++ {
@@ -190,7 +228,7 @@ func c06Run(c *fw.C, caseID string) {
 			return
 		}
 		c.SetAdd("scripted_objects_created_in_abandoned_branch", script)
-	} else if !produce(A, wA, depthX, 1) {
+	} else if !produce(A, wA, depthX, map[bool]int{true: 33, false: 1}[idx%4 == 3]) {
 		return
 	}
 	if !produce(B, wB, depthX+extraY, 0) {
@@ -311,7 +349,7 @@ func c06Run(c *fw.C, caseID string) {
 
 	// continue on Y
 	more := 4 + r.Intn(12)
-	if script != "" {
+	if script != "" && script != "tick-gap" {
 		// past height 600: the first reward Update that credits epochs (epoch end + 1 h passed, 300 momentums since the update at 300) runs on the adopted branch
 		more = int(612-B.Height()) + r.Intn(8)
 	}
